@@ -85,6 +85,24 @@ Goal forall (uc : unicode), unicode_ok uc ->
 Proof. exact Props.C02.C02_back_go. Qed.
 Print Assumptions Props.C02.C02_back_go.
 Goal forall (uc : unicode), unicode_ok uc ->
+  forall (acronyms : list str) (name : str),
+    forallb (forallb is_ascii) acronyms = true -> forallb is_ascii name = true ->
+    go_convert_acronyms_to_uppercase uc acronyms name = Ok (c02_go_rewrite acronyms name).
+Proof. exact Props.C02.C02_go_rewrite_is_model. Qed.
+Print Assumptions Props.C02.C02_go_rewrite_is_model.
+Goal forall acronyms x c, known_C02_back_go acronyms x = Some c -> known_C02_back Go true x = Some c.
+Proof. exact Props.C02.C02_go_exact_in_class. Qed.
+Print Assumptions Props.C02.C02_go_exact_in_class.
+Goal forall (uc : unicode), unicode_ok uc ->
+  forall (cfg : go_config), forallb (forallb is_ascii) (go_uppercase_acronyms cfg) = true ->
+  forall custom e s ds s',
+    go_decl_of uc cfg custom (ItEnum e) s = Ok (ds, s') ->
+    dom_C02_back (c02_expect_ir e) = true ->
+    (good_C02 Go (c02_expect_ir e) (flat_map go_obs ds) = true <->
+     known_C02_back_go (go_uppercase_acronyms cfg) (c02_expect_ir e) = None).
+Proof. exact Props.C02.C02_back_go_exact. Qed.
+Print Assumptions Props.C02.C02_back_go_exact.
+Goal forall (uc : unicode), unicode_ok uc ->
   forall s, forallb is_ascii s = true -> str_to_uppercase uc (cc_to_snake uc s) = c02_py_key s.
 Proof. exact Props.C02.C02_py_key_is_convert_case. Qed.
 Print Assumptions Props.C02.C02_py_key_is_convert_case.
